@@ -52,8 +52,13 @@ def _hash(paths, extra=""):
         h.update(p.encode()); h.update(open(p, "rb").read())
     return h.hexdigest()[:24]
 
-def build(variant="plain", sources=None, name="vh", extra_flags=(), with_lib=True):
-    """Compile harness sources (default: harness/*.cpp) + the library's .cpp files from /repo's working tree."""
+def build(variant="plain", fams=("bool",), sources=None, name=None, extra_flags=(), with_lib=True):
+    """Compile harness/main.cpp + harness/fam_<f>.cpp for f in fams (or explicit sources) + the library's .cpp files
+    from /repo's working tree.  Object files and binaries are cached by content hash under .cache/."""
+    if sources is None:
+        sources = [os.path.join(HARN, "main.cpp")] + [os.path.join(HARN, "fam_%s.cpp" % f) for f in fams]
+    if name is None:
+        name = "vh_" + "_".join(fams)
     cxx, flags = VARIANTS[variant]
     flags = list(flags) + ["-std=c++17", "-D" + GUARD, "-I" + LIBINC, "-I" + HARN, "-pthread"] + list(extra_flags)
     headers = _files(LIBINC, (".h", ".hpp")) + _files(HARN, (".hpp", ".h"))
